@@ -117,6 +117,14 @@ struct LockstepExec {
     else frame_size = 3 * L.fs / 400;                       // 7.5 ms
     if (S.src.fam == SRC_NONFINITE) fmt = FMT_F32;
     int expect = S.expected_frame(frame_size);
+    // (a buffer size of -1000 - k stands for "the smallest buffer this object must accept for this frame, plus k bytes": the tight
+    //  region right above the documented minimum, whatever the number of streams)
+    if (max_bytes <= -1000) {
+      bool h = expect > 0 && expect * 10 == L.fs;
+      long smallest = L.kind == K_SINGLE ? (h ? 2 : 1) : 2L * L.streams - 1 + (h ? L.streams : 0);
+      max_bytes = (int)(smallest + (-1000 - (long)max_bytes)); run.count("enc_buffer_just_above_minimum");
+      if (L.kind != K_SINGLE && L.streams >= 8) { run.count("enc_buffer_just_above_minimum_8plus_streams"); if (h) run.count("enc_buffer_just_above_minimum_8plus_streams_100ms"); }
+    }
     std::vector<float> pcm((size_t)(frame_size > 0 ? frame_size : 0) * L.ch);
     src_fill(S.src, L.fs, L.ch, S.pos, frame_size > 0 ? frame_size : 0, pcm.data());
     Bytes pkt; bool canary = true;
